@@ -185,7 +185,7 @@ class Namespace:
         value = self.pop("width")
         try:
             value = int(value)
-        except ValueError:
+        except (TypeError, ValueError):
             value = 0
         if self.inimage:
             context = self._get_context()
@@ -198,7 +198,7 @@ class Namespace:
         value = self.pop("height")
         try:
             value = int(value)
-        except ValueError:
+        except (TypeError, ValueError):
             value = 0
         if self.inimage:
             context = self._get_context()
